@@ -102,7 +102,30 @@ def check_doc(doc, opts=None):
     return res
 
 
+ODD_NAMES = ["no-comments", "is.sticky", "x-draft", "x_y", "a1", "wp-status", "dotted.name.here", "Mixed-Case", "trailing-"]
+
+
+def with_odd_elements(rng, doc):
+    """handler-less UNPREFIXED elements whose ASCII names contain '-', '.', '_' or digits, in every empty-element spelling, before ordinary siblings"""
+    d = doc.decode("utf-8")
+    import re
+    spots = [m.end() for m in re.finditer(r"<(?:channel|item|entry)(?:\s[^>]*)?>", d)]
+    rng.shuffle(spots)
+    for pos in sorted(spots[:rng.randint(1, 3)], reverse=True):
+        n = rng.choice(ODD_NAMES)
+        form = rng.choice(["<%s/>", "<%s />", "<%s></%s>", "<%s>text</%s>", "<%s/>"])
+        d = d[:pos] + (form % ((n,) * form.count("%s"))) + d[pos:]
+    return d.encode("utf-8")
+
+
 def gen_doc(rng):
+    d = gen_doc0(rng)
+    if rng.random() < 0.3:
+        return with_odd_elements(rng, d)
+    return d
+
+
+def gen_doc0(rng):
     r = rng.random()
     if r < 0.5:
         return feedgen.vocab_doc(rng).encode("utf-8")
